@@ -630,6 +630,9 @@ class AEval(dtable.Eval):
                 a2[int(mem)] = newv
                 self._assign_place(target["base"], ("tuple", tuple(a2)), env)
                 return
+        if is_node(target) and target["k"] in ("MethodCall", "Try") and self._mut_place(target, env) is not None:
+            self._place_store(target, newv, env)
+            return
         raise Unknown("assignment target")
 
     MUT_ACCESSORS = ("last_mut", "first_mut", "as_mut", "as_deref_mut", "as_mut_slice", "as_mut_str", "deref_mut", "borrow_mut", "get_mut", "by_ref", "iter_mut")
@@ -647,6 +650,17 @@ class AEval(dtable.Eval):
             return node if self._mut_place(node["base"], env) is not None else None
         if node["k"] == "MethodCall" and node["method"] in self.MUT_ACCESSORS and not node["args"] and node["method"] not in self.builtins:
             return node if self._mut_place(node["receiver"], env) is not None else None
+        if node["k"] == "MethodCall" and node["method"] in ("or_default", "or_insert", "or_insert_with") and node["method"] not in self.builtins \
+                and is_node(node["receiver"]) and node["receiver"]["k"] == "MethodCall" and node["receiver"]["method"] == "entry" and "entry" not in self.builtins \
+                and len(node["receiver"]["args"]) == 1:
+            return node if self._mut_place(node["receiver"]["receiver"], env) is not None else None       # map.entry(k).or_default()
+        if node["k"] == "MethodCall" and node["method"] == "get_mut" and len(node["args"]) == 1 and "get_mut" not in self.builtins:
+            return node if self._mut_place(node["receiver"], env) is not None else None                   # map.get_mut(k) / vec.get_mut(i)
+        if node["k"] == "MethodCall" and node["method"] in ("unwrap", "expect", "unwrap_at") and is_node(node["receiver"]) and node["receiver"]["k"] == "MethodCall" \
+                and node["receiver"]["method"] in ("last_mut", "first_mut", "get_mut", "as_mut", "as_deref_mut"):
+            return node if self._mut_place(node["receiver"], env) is not None else None
+        if node["k"] == "Try" and is_node(node["expr"]) and node["expr"]["k"] == "MethodCall" and node["expr"]["method"] in ("last_mut", "first_mut", "get_mut", "as_mut", "as_deref_mut"):
+            return node if self._mut_place(node["expr"], env) is not None else None
         return None
 
     def _place_store(self, node, newv, env):
@@ -656,7 +670,44 @@ class AEval(dtable.Eval):
         if node["k"] in ("Path", "Field"):
             self._assign_place(node, newv, env)
             return
+        if node["k"] == "Try":
+            self._place_store(node["expr"], C("Some", newv), env)
+            return
         m = node["method"]
+        if m in ("unwrap", "expect", "unwrap_at"):
+            self._place_store(node["receiver"], C("Some", newv), env)
+            return
+        if m in ("or_default", "or_insert", "or_insert_with"):
+            ent = node["receiver"]
+            inner = self._mut_place(ent["receiver"], env)
+            key = self.ex(ent["args"][0], env)
+            cur = self.ex(inner, env)
+            if cur == DEFAULT:
+                cur = L()
+            if cur[0] != "list":
+                raise Unknown("entry on a non map")
+            xs = [x for x in cur[1] if not (x[0] == "tuple" and len(x[1]) == 2 and x[1][0] == key)]
+            pos = next((i for i, x in enumerate(cur[1]) if x[0] == "tuple" and len(x[1]) == 2 and x[1][0] == key), len(xs))
+            xs.insert(pos, T(key, newv))
+            self._place_store(inner, L(*xs), env)
+            return
+        if m == "get_mut" and node["args"]:
+            inner = self._mut_place(node["receiver"], env)
+            key = self.ex(node["args"][0], env)
+            cur = self.ex(inner, env)
+            if not (newv[0] == "ctor" and newv[1] in ("Some", "None")) or cur[0] != "list":
+                raise Unknown("write through get_mut")
+            if newv[1] == "None":
+                return
+            if key[0] == "int" and not (cur[1] and all(x[0] == "tuple" and len(x[1]) == 2 for x in cur[1])):
+                xs = list(cur[1])
+                if 0 <= key[1] < len(xs):
+                    xs[key[1]] = newv[2][0]
+                self._place_store(inner, L(*xs), env)
+                return
+            xs = [T(key, newv[2][0]) if (x[0] == "tuple" and len(x[1]) == 2 and x[1][0] == key) else x for x in cur[1]]
+            self._place_store(inner, L(*xs), env)
+            return
         inner = self._mut_place(node["receiver"], env)
         cur = self.ex(inner, env)
         if m in ("last_mut", "first_mut"):
@@ -965,12 +1016,14 @@ class AEval(dtable.Eval):
             tgt = rnode
             while is_node(tgt) and tgt["k"] in ("Paren", "Unary", "Ref"):
                 tgt = tgt["expr"]
-            if is_node(tgt) and tgt["k"] == "Field" and self._is_place(tgt, env):
+            if is_node(tgt) and tgt["k"] in ("Field", "MethodCall", "Try") and self._mut_place(tgt, env) is not None:
                 curv = self.ex(tgt, env)
+                if curv == DEFAULT:
+                    curv = L()
                 if curv[0] == "list" and not isinstance(curv, MutRef):
                     vals = [self.ex(a, env) for a in e["args"]]
                     newl, res = self._collection_op(m, curv[1], vals)
-                    self._assign_place(tgt, L(*newl), env)
+                    self._place_store(tgt, L(*newl), env)
                     return res
             if is_node(tgt) and tgt["k"] == "MethodCall" and tgt["method"] in ("get_or_insert_with", "get_or_insert", "get_or_insert_default") and self._is_place(tgt["receiver"], env):
                 opt = self.ex(tgt["receiver"], env)
@@ -1069,6 +1122,14 @@ class AEval(dtable.Eval):
                     return C("Some", ("str", _bytes_slice(r0[1], lo[1], z)))
                 except Ret:
                     return C("None")
+        if m in ("take", "replace") and m not in self.builtins and m not in self.mut_builtins and m not in self.funcs and len(e["args"]) == (0 if m == "take" else 1):
+            tgt = self._mut_place(rnode, env)
+            if tgt is not None:
+                cur = self.ex(tgt, env)
+                if cur[0] == "ctor" and cur[1] in ("Some", "None"):
+                    newv = C("None") if m == "take" else C("Some", self.ex(e["args"][0], env))
+                    self._place_store(tgt, newv, env)
+                    return cur
         r = self.ex(rnode, env)
         args = [self.ex(a, env) for a in e["args"]]
         if r == DEFAULT and m in ("iter", "into_iter", "iter_mut", "is_empty", "len", "first", "last", "get", "contains", "contains_key", "keys", "values"):
@@ -1263,7 +1324,10 @@ class AEval(dtable.Eval):
                 return L(*[x[1][0] for x in xs])
             if m in ("into_values", "values_mut") and (pairs or not xs):
                 return L(*[x[1][1] for x in xs])
-            if m == "get" and pairs and args and args[0][0] != "int":
+            if m == "entry" and len(args) == 1 and (pairs or not xs):
+                hit = [x for x in xs if x[1][0] == args[0]]
+                return C("Entry", args[0], C("Some", hit[0][1][1]) if hit else C("None"))
+            if m in ("get", "get_mut") and pairs and args and args[0][0] != "int":
                 for x in xs:
                     if x[1][0] == args[0]:
                         return C("Some", x[1][1])
@@ -1276,6 +1340,15 @@ class AEval(dtable.Eval):
                 return L(*[x for x in xs if x in args[0][1]])
             if m == "get" and args[0][0] == "int":
                 return C("Some", xs[args[0][1]]) if 0 <= args[0][1] < len(xs) else C("None")
+        if r[0] == "ctor" and r[1] == "Entry" and len(r[2]) == 2 and m in ("or_default", "or_insert", "or_insert_with"):
+            if r[2][1][1] == "Some":
+                return r[2][1][2][0]
+            if m == "or_insert" and args:
+                return args[0]
+            if m == "or_insert_with" and args:
+                return self.apply(args[0], [])
+            dflt = getattr(self, "default_value", None)
+            return dflt if dflt is not None else DEFAULT
         if r[0] == "ctor" and r[1] in ("Some", "None"):
             some = r[1] == "Some"
             if m == "map":
@@ -1524,10 +1597,21 @@ class AEval(dtable.Eval):
             return out
         return super().pat(p, v, env)
 
+    def _flush_aliases(self, aliases, env):
+        for name, (tgt, seen) in list(aliases.items()):
+            cur = env.get(name)
+            if cur is not None and cur != seen:
+                try:
+                    self._place_store(tgt, cur, env)
+                    aliases[name] = (tgt, cur)
+                except Unknown:
+                    aliases.pop(name, None)
+
     def block(self, b, env):
         outer = env
         env = dict(env)
         shadow = set()
+        aliases = {}
         last = UNIT
         try:
             for st in b["stmts"]:
@@ -1545,9 +1629,25 @@ class AEval(dtable.Eval):
                     env.update(bd)
                     shadow |= set(bd)
                     last = UNIT
+                    # `let x = map.entry(k).or_default()` / `vec.last_mut().unwrap()` / `&mut s.field`: x is a view of
+                    # that storage; what later statements do to x is written through (see _flush_aliases)
+                    pp = st["pat"]
+                    while pp["k"] in ("PType", "PRef"):
+                        pp = pp["pat"]
+                    if pp["k"] == "PIdent" and "sub" not in pp:
+                        tgt = self._mut_place(st["init"], env) if is_node(st["init"]) else None
+                        init = st["init"]
+                        while is_node(init) and init["k"] == "Paren":
+                            init = init["expr"]
+                        by_ref = is_node(init) and ((init["k"] == "Ref" and init.get("mut")) or init["k"] in ("MethodCall", "Try"))
+                        if tgt is not None and by_ref and tgt["k"] != "Path":
+                            aliases[pp["name"]] = (tgt, v)
+                        else:
+                            aliases.pop(pp["name"], None)
                 elif k == "ExprStmt":
                     v = self.ex(st["expr"], env)
                     last = UNIT if st.get("semi") else v
+                    self._flush_aliases(aliases, env)
                 elif k == "ItemMacro" and st.get("path") == "macro_rules" and st.get("rule_body") is not None:
                     env["macro!" + st["ident"]] = ("macro", st["rule_params"], st["rule_body"])
                     shadow.add("macro!" + st["ident"])
@@ -1560,6 +1660,7 @@ class AEval(dtable.Eval):
                     last = UNIT
             return last
         finally:
+            self._flush_aliases(aliases, env)
             # assignments / pushes to variables of the enclosing scope stay visible there
             for kk in outer:
                 if kk not in shadow and kk in env:
